@@ -1,10 +1,654 @@
 /-
-  MdModel.Win — placeholder (model not written yet).
+  MdModel.Win — model of the STACK WIN unwinder of breakpad-symbols
+    * `eval_win_expr`                       (sym_file/walker.rs:754-937)
+    * `win_frame_size` (checked)            (walker.rs:939-944)
+    * `walk_with_stack_win_framedata`       (walker.rs:969-980)
+    * `walk_with_stack_win_fpo`             (walker.rs:982-1045)
+    * `clear_stack_win_caller_registers`    (walker.rs:1048-1053) — passes the names WITH `$`
+    * `SymbolFile::walk_frame` record selection framedata > fpo > STACK CFI (sym_file/mod.rs:493-524)
+    * the `type`/`has_program_string` consistency rule of `stack_win_line` (parser.rs:316-352)
+    * `CfiStackWalker<CONTEXT_X86>` as the `FrameWalker` (minidump-unwind/src/lib.rs:604-655):
+      32-bit registers, `set_caller_register` fails on unknown names and on values ≥ 2^32,
+      `clear_caller_register` removes the memoised name (nothing for a name it does not know).
+
+  Values the programs compute with are `UInt32` (the Rust code uses `wrapping_*` on `u32`);
+  addresses handed to the memory reader are `Nat` (`u64` in Rust, every `+` on them is a checked
+  site with an explicit panic outcome).  Core-only imports.
 -/
 import MdModel.Prelude
+import MdModel.RangeMap
 namespace MdModel.Win
+open MdModel
 
-/-- line-protocol entry point of this model (engine(s): win) -/
-def handle (_engine : String) (_args : List String) : String := "bad-op"
+/-- result of a piece of Rust code returning `Option<_>` that may also panic. -/
+inductive R (α : Type) where
+  | ok (a : α)
+  | fail
+  | panic (site : String)
+  deriving Repr, DecidableEq
+
+@[inline] def R.bind {α β : Type} (x : R α) (f : α → R β) : R β :=
+  match x with
+  | .ok a => f a
+  | .fail => .fail
+  | .panic s => .panic s
+
+instance : Monad R where
+  pure := R.ok
+  bind := R.bind
+
+/-- `opt?` -/
+def R.ofOpt {α : Type} : Option α → R α
+  | some a => .ok a
+  | none => .fail
+
+def R.isPanic {α : Type} : R α → Bool
+  | .panic _ => true
+  | _ => false
+
+/-! ## the numeric fields of a `StackInfoWin` that the walker reads -/
+
+structure Info where
+  /-- `parameter_size` -/
+  par : UInt32
+  /-- `saved_register_size` -/
+  sav : UInt32
+  /-- `local_size` -/
+  loc : UInt32
+  deriving Repr, DecidableEq
+
+/-- The read-only half of a `FrameWalker` (callee registers, stack memory, grand callee).
+    Register and memory values are 32 bit (x86 `CfiStackWalker`: `C::Register = u32`). -/
+structure Walker where
+  hasGC : Bool
+  gcParam : UInt32
+  reg : String → Option UInt32
+  mem : Nat → Option UInt32
+
+/-- `u32::checked_add` -/
+def checkedAdd32 (a b : UInt32) : Option UInt32 :=
+  if a.toNat + b.toNat ≤ U32MAX then some (a + b) else none
+
+/-- `win_frame_size`: `local_size.checked_add(saved_register_size)?.checked_add(grand_callee)` -/
+def winFrameSize (info : Info) (gc : UInt32) : Option UInt32 :=
+  (checkedAdd32 info.loc info.sav).bind fun s => checkedAdd32 s gc
+
+/-! ## tokens -/
+
+inductive Tok where
+  | add | sub | mul | div | rem | align | assign | deref | undef
+  | var (name : String)
+  | lit (v : UInt32)
+  | bad
+  deriving Repr, DecidableEq
+
+/-- ASCII whitespace of `split_ascii_whitespace`: space, \t, \n, \x0C, \r. -/
+def isWs (c : Char) : Bool :=
+  c = ' ' || c = '\t' || c = '\n' || c = '\x0c' || c = '\r'
+
+/-- `str::split_ascii_whitespace` (non-empty pieces between whitespace). -/
+def splitWs : List Char → List Char → List (List Char)
+  | [], cur => if cur.isEmpty then [] else [cur.reverse]
+  | c :: rest, cur =>
+    if isWs c then
+      if cur.isEmpty then splitWs rest [] else cur.reverse :: splitWs rest []
+    else splitWs rest (c :: cur)
+
+/-- the `=tok` hack: a piece that starts with `=` and is longer than one byte becomes `=`, `tok`
+    (one level only: `==x` gives `=` and `=x`). -/
+def splitEq (piece : List Char) : List (List Char) :=
+  match piece with
+  | '=' :: c :: rest => [['='], c :: rest]
+  | p => [p]
+
+def isDigit (c : Char) : Bool := '0' ≤ c && c ≤ '9'
+
+def digitsVal (ds : List Char) : Nat := ds.foldl (fun a c => a * 10 + (c.toNat - '0'.toNat)) 0
+
+/-- `i32::from_str(tok)` then `as u32`: optional single sign, at least one ASCII digit, nothing
+    else, value within `i32`. -/
+def parseI32 (cs : List Char) : Option UInt32 :=
+  let neg := cs.head? = some '-'
+  let ds := match cs with
+    | '-' :: r => r
+    | '+' :: r => r
+    | r => r
+  if ds.isEmpty || !ds.all isDigit then none
+  else
+    let n := digitsVal ds
+    if neg then
+      if n ≤ 2147483648 then some (UInt32.ofNat (4294967296 - n)) else none
+    else
+      if n ≤ 2147483647 then some (UInt32.ofNat n) else none
+
+/-- the `match token { … }` of `eval_win_expr`, in the code's order. -/
+def classify (t : List Char) : Tok :=
+  if t = ['+'] then .add
+  else if t = ['-'] then .sub
+  else if t = ['*'] then .mul
+  else if t = ['/'] then .div
+  else if t = ['%'] then .rem
+  else if t = ['@'] then .align
+  else if t = ['='] then .assign
+  else if t = ['^'] then .deref
+  else if t = ".undef".toList then .undef
+  else if t.head? = some '$' || t.head? = some '.' then .var (String.ofList t)
+  else match parseI32 t with
+    | some v => .lit v
+    | none => .bad
+
+/-- tokens of a program string -/
+def tokenize (expr : List Char) : List Tok :=
+  ((splitWs expr []).flatMap splitEq).map classify
+
+/-! ## evaluator -/
+
+inductive Val where
+  | var (name : String)
+  | int (v : UInt32)
+  | undef
+  deriving Repr, DecidableEq
+
+abbrev Vars := List (String × UInt32)
+
+def Vars.get (vs : Vars) (k : String) : Option UInt32 := (vs.find? fun e => e.1 = k).map (·.2)
+def Vars.erase (vs : Vars) (k : String) : Vars := vs.filter fun e => e.1 ≠ k
+def Vars.set (vs : Vars) (k : String) (v : UInt32) : Vars := (k, v) :: vs.erase k
+
+/-- `WinVal::into_int` -/
+def Val.toInt (vs : Vars) : Val → Option UInt32
+  | .var n => vs.get n
+  | .int v => some v
+  | .undef => none
+
+structure St where
+  vars : Vars
+  stack : List Val   -- head = top of the stack
+  deriving Repr
+
+/-- `u32::is_power_of_two` -/
+def isPow2 (r : UInt32) : Bool := r ≠ 0 && (r &&& (r - 1)) = 0
+
+/-- the `@` arm: fails on `rhs == 0 || !rhs.is_power_of_two()`, else
+    `lhs & (-1i32 as u32 ^ (rhs - 1))` — `rhs - 1` is an overflow-checked subtraction. -/
+def alignOp (lhs rhs : UInt32) : R UInt32 :=
+  if rhs = 0 || !isPow2 rhs then .fail
+  else if rhs.toNat < 1 then .panic "eval_win_expr: rhs - 1"
+  else .ok (lhs &&& (0xffffffff ^^^ (rhs - 1)))
+
+/-- the five wrapping arithmetic operators -/
+inductive BinOp where
+  | add | sub | mul | div | rem
+  deriving Repr, DecidableEq
+
+def BinOp.eval (op : BinOp) (lhs rhs : UInt32) : Option UInt32 :=
+  match op with
+  | .add => some (lhs + rhs)
+  | .sub => some (lhs - rhs)
+  | .mul => some (lhs * rhs)
+  | .div => if rhs = 0 then none else some (lhs / rhs)
+  | .rem => if rhs = 0 then none else some (lhs % rhs)
+
+/-- pop two operands as integers (rhs first) -/
+def pop2 (st : St) : Option (UInt32 × UInt32 × List Val) :=
+  match st.stack with
+  | r :: l :: rest =>
+    match r.toInt st.vars, l.toInt st.vars with
+    | some rv, some lv => some (lv, rv, rest)
+    | _, _ => none
+  | _ => none
+
+def stepBin (op : BinOp) (st : St) : R St :=
+  match pop2 st with
+  | none => .fail
+  | some (l, r, rest) =>
+    match op.eval l r with
+    | none => .fail
+    | some v => .ok { st with stack := .int v :: rest }
+
+/-- one token of the evaluation loop -/
+def step (mem : Nat → Option UInt32) (st : St) : Tok → R St
+  | .add => stepBin .add st
+  | .sub => stepBin .sub st
+  | .mul => stepBin .mul st
+  | .div => stepBin .div st
+  | .rem => stepBin .rem st
+  | .align =>
+    match pop2 st with
+    | none => .fail
+    | some (l, r, rest) =>
+      match alignOp l r with
+      | .ok v => .ok { st with stack := .int v :: rest }
+      | .fail => .fail
+      | .panic s => .panic s
+  | .assign =>
+    match st.stack with
+    | rhs :: .var name :: rest =>
+      match rhs with
+      | .undef => .ok { vars := st.vars.erase name, stack := rest }
+      | _ =>
+        match rhs.toInt st.vars with
+        | some v => .ok { vars := st.vars.set name v, stack := rest }
+        | none => .fail
+    | _ => .fail
+  | .deref =>
+    match st.stack with
+    | p :: rest =>
+      match p.toInt st.vars with
+      | none => .fail
+      | some ptr =>
+        match mem ptr.toNat with
+        | none => .fail
+        | some v => .ok { st with stack := .int v :: rest }
+    | [] => .fail
+  | .undef => .ok { st with stack := .undef :: st.stack }
+  | .var n => .ok { st with stack := .var n :: st.stack }
+  | .lit v => .ok { st with stack := .int v :: st.stack }
+  | .bad => .fail
+
+def run (mem : Nat → Option UInt32) : St → List Tok → R St
+  | st, [] => .ok st
+  | st, t :: rest =>
+    match step mem st t with
+    | .ok st' => run mem st' rest
+    | .fail => .fail
+    | .panic s => .panic s
+
+/-- `.raSearch` / `.raSearchStart`: `ebp + 4` when the raw program text contains `@`,
+    else `esp + frame_size`; every addition checked. -/
+def searchStart (hasAt : Bool) (info : Info) (gc esp ebp : UInt32) : Option UInt32 :=
+  if hasAt then checkedAdd32 ebp 4
+  else (winFrameSize info gc).bind fun fs => checkedAdd32 esp fs
+
+/-- the variable map before the first token -/
+def initVars (hasAt : Bool) (info : Info) (w : Walker) : Option Vars :=
+  match w.reg "esp", w.reg "ebp" with
+  | some esp, some ebp =>
+    let v0 : Vars := Vars.set (Vars.set [] "$esp" esp) "$ebp" ebp
+    let v1 := match w.reg "ebx" with
+      | some ebx => v0.set "$ebx" ebx
+      | none => v0
+    match searchStart hasAt info w.gcParam esp ebp with
+    | none => none
+    | some ss =>
+      some ((((((v1.set ".cbParams" info.par).set ".cbCalleeParams" w.gcParam).set
+        ".cbSavedRegs" info.sav).set ".cbLocals" info.loc).set ".raSearch" ss).set
+        ".raSearchStart" ss)
+  | _, _ => none
+
+/-- the six output registers, in the code's order -/
+def outputRegs : List String := ["eip", "esp", "ebp", "ebx", "esi", "edi"]
+
+/-- the `set_caller_register` calls after the loop: `(name without $, value as u64)` -/
+def outputs (vs : Vars) : List (String × Nat) :=
+  outputRegs.filterMap fun r => (vs.get ("$" ++ r)).map fun v => (r, v.toNat)
+
+/-- What a STACK WIN routine does to the mutable half of the walker: the `set_caller_register`
+    calls it makes, in order, and whether it then returns `Some(())` (`done`) or `None`.
+    (Reads of the walker never depend on earlier writes: `CfiStackWalker` reads the callee
+    context and the stack memory only.) -/
+structure Plan where
+  sets : List (String × Nat)
+  done : Bool
+  deriving Repr, DecidableEq
+
+/-- final variable map of a program (`none`: the program failed) -/
+def finalVars (expr : List Char) (info : Info) (w : Walker) : R Vars :=
+  match initVars (expr.contains '@') info w with
+  | none => .fail
+  | some vs =>
+    match run w.mem { vars := vs, stack := [] } (tokenize expr) with
+    | .ok st => .ok st.vars
+    | .fail => .fail
+    | .panic s => .panic s
+
+/-- `eval_win_expr` -/
+def evalWin (expr : List Char) (info : Info) (w : Walker) : Outcome Plan :=
+  match finalVars expr info w with
+  | .ok vs => .ok { sets := outputs vs, done := true }
+  | .fail => .ok { sets := [], done := false }
+  | .panic s => .panic s
+
+/-- `u64 + u64` with overflow checks -/
+def addU64 (a b : Nat) : R Nat :=
+  if a + b ≤ U64MAX then .ok (a + b) else .panic "u64 add overflow"
+
+/-- fpo, first half: the callee `esp`, the address of the return-address slot and the caller's
+    `eip` — `*(esp + frame_size)`, or one word further when the callee is a context frame (no
+    grand callee) and the slot holds the callee's own `eip` (a "leftover return address"). -/
+def fpoRet (info : Info) (w : Walker) : R (UInt32 × Nat × UInt32) :=
+  (R.ofOpt (winFrameSize info w.gcParam)).bind fun fs =>
+  (R.ofOpt (w.reg "esp")).bind fun esp =>
+  (addU64 esp.toNat fs.toNat).bind fun a0 =>
+  (R.ofOpt (w.mem a0)).bind fun eip0 =>
+  if !w.hasGC then
+    (R.ofOpt (w.reg "eip")).bind fun calleeEip =>
+    if eip0 = calleeEip then
+      (addU64 a0 4).bind fun a1 =>
+      (R.ofOpt (w.mem a1)).bind fun e1 => .ok (esp, a1, e1)
+    else .ok (esp, a0, eip0)
+  else .ok (esp, a0, eip0)
+
+/-- fpo: `%ebx` is passed through (set first) when the function does not allocate a base pointer -/
+def fpoPre (abp : Bool) (w : Walker) : List (String × Nat) :=
+  if abp then []
+  else match w.reg "ebx" with
+    | some ebx => [("ebx", ebx.toNat)]
+    | none => []
+
+/-- fpo: the caller's `ebp` — `*(esp + grand_callee_params + saved_regs - 8)` (`checked_sub`) when
+    the function allocates a base pointer, else the callee's `ebp` (required). -/
+def fpoEbp (info : Info) (abp : Bool) (w : Walker) (esp : UInt32) : R UInt32 :=
+  if abp then
+    (addU64 esp.toNat w.gcParam.toNat).bind fun s1 =>
+    (addU64 s1 info.sav.toNat).bind fun s2 =>
+    if s2 < 8 then .fail else R.ofOpt (w.mem (s2 - 8))
+  else R.ofOpt (w.reg "ebp")
+
+/-- `walk_with_stack_win_fpo` after `clear_stack_win_caller_registers` -/
+def fpoPlan (info : Info) (abp : Bool) (w : Walker) : Outcome Plan :=
+  match fpoRet info w with
+  | .panic s => .panic s
+  | .fail => .ok { sets := [], done := false }
+  | .ok (esp, eipAddr, callerEip) =>
+    match addU64 eipAddr 4 with
+    | .panic s => .panic s
+    | .fail => .ok { sets := [], done := false }
+    | .ok callerEsp =>
+      match fpoEbp info abp w esp with
+      | .panic s => .panic s
+      | .fail => .ok { sets := fpoPre abp w, done := false }
+      | .ok ebp =>
+        .ok { sets := fpoPre abp w ++ [("eip", callerEip.toNat), ("esp", callerEsp), ("ebp", ebp.toNat)],
+              done := true }
+
+/-! ## the mutable half: `CfiStackWalker<CONTEXT_X86>` -/
+
+/-- `CONTEXT_X86::REGISTERS` -/
+def x86Regs : List String :=
+  ["eip", "esp", "ebp", "ebx", "esi", "edi", "eax", "ecx", "edx", "eflags"]
+
+/-- `CALLEE_SAVED_REGS` of x86.rs -/
+def x86CalleeSaved : List String := ["ebp", "ebx", "edi", "esi"]
+
+structure Caller where
+  /-- `caller_ctx` (register values) -/
+  vals : Vars
+  /-- `caller_validity` -/
+  valid : List String
+  /-- every name passed to `clear_caller_register`, in order (observation only) -/
+  clears : List String
+  /-- every successful `set_caller_register(name, value)` call, in order (observation only) -/
+  log : List (String × Nat)
+  deriving Repr
+
+/-- the effect of `CfiStackWalker::set_caller_register` (also of `set_cfa` / `set_ra`, which name
+    `esp` / `eip`): fails on a name the context does not know and on a value ≥ 2^32 -/
+def Caller.setCore (c : Caller) (name : String) (v : Nat) : Option Caller :=
+  if name ∈ x86Regs then
+    if v ≤ U32MAX then
+      some { c with vals := c.vals.set name (UInt32.ofNat v),
+                    valid := if name ∈ c.valid then c.valid else name :: c.valid }
+    else none
+  else none
+
+/-- `CfiStackWalker::set_caller_register`, recording the call -/
+def Caller.set (c : Caller) (name : String) (v : Nat) : Option Caller :=
+  (c.setCore name v).map fun c' => { c' with log := c'.log ++ [(name, v)] }
+
+/-- `CfiStackWalker::clear_caller_register`: memoise the name, remove it from the validity set;
+    a name the context does not know (`"$ebx"`) removes nothing. -/
+def Caller.clear (c : Caller) (name : String) : Caller :=
+  { c with valid := if name ∈ x86Regs then c.valid.filter (· ≠ name) else c.valid,
+           clears := c.clears ++ [name] }
+
+/-- the names `clear_stack_win_caller_registers` passes today (walker.rs:1049) -/
+def clearNamesActual : List String := ["$eip", "$esp", "$ebp", "$ebx", "$esi", "$edi"]
+/-- the names it should pass (what the validity set holds) -/
+def clearNamesFixed : List String := ["eip", "esp", "ebp", "ebx", "esi", "edi"]
+
+def clearAll (names : List String) (c : Caller) : Caller := names.foldl Caller.clear c
+
+/-- initial state of the caller in `CfiStackWalker::from_ctx_and_args` for x86: the context is a
+    clone of the callee's, the validity set holds the callee-saved registers valid in the callee -/
+def Caller.init (calleeVals : Vars) (calleeValid : String → Bool) : Caller :=
+  { vals := calleeVals, valid := x86CalleeSaved.filter calleeValid, clears := [], log := [] }
+
+/-- apply the `set_caller_register(..)?` calls of a plan in order -/
+def applySets : Caller → List (String × Nat) → Bool × Caller
+  | c, [] => (true, c)
+  | c, (n, v) :: rest =>
+    match c.set n v with
+    | none => (false, c)
+    | some c' => applySets c' rest
+
+def runPlan (c : Caller) (p : Plan) : Bool × Caller :=
+  let (ok, c') := applySets c p.sets
+  (ok && p.done, c')
+
+/-! ## records and selection -/
+
+inductive Thing where
+  | prog (s : List Char)
+  | abp (b : Bool)
+  deriving Repr, DecidableEq
+
+structure SInfo where
+  info : Info
+  thing : Thing
+  deriving Repr, DecidableEq
+
+/-- one `STACK WIN` line as the parser's tuple sees it -/
+structure Rec where
+  ty : Char
+  addr : Nat
+  size : Nat
+  par : UInt32
+  sav : UInt32
+  loc : UInt32
+  hp : Char
+  rest : List Char
+  deriving Repr
+
+inductive FrameType where
+  | frameData (i : SInfo)
+  | fpo (i : SInfo)
+  | unhandled
+  deriving Repr, DecidableEq
+
+/-- the tail of `stack_win_line`: consistency of `type` and `has_program_string` -/
+def classifyRec (r : Rec) : FrameType :=
+  let really : Bool := r.ty == '4'
+  let has : Bool := r.hp == '1'
+  if really != has then .unhandled
+  else
+    let thing := if really then Thing.prog r.rest else Thing.abp (r.rest = ['1'])
+    let i : SInfo := { info := { par := r.par, sav := r.sav, loc := r.loc }, thing := thing }
+    if r.ty = '4' then .frameData i
+    else if r.ty = '0' then .fpo i
+    else .unhandled
+
+/-- `walk_with_stack_win_framedata` (`names` = what `clear_stack_win_caller_registers` passes) -/
+def walkFramedata (names : List String) (i : SInfo) (w : Walker) (c : Caller) :
+    Outcome (Bool × Caller) :=
+  match i.thing with
+  | .prog expr =>
+    match evalWin expr i.info w with
+    | .panic s => .panic s
+    | .ok p => .ok (runPlan (clearAll names c) p)
+  | .abp _ => .panic "walk_with_stack_win_framedata: unreachable!()"
+
+/-- `walk_with_stack_win_fpo` -/
+def walkFpo (names : List String) (i : SInfo) (w : Walker) (c : Caller) :
+    Outcome (Bool × Caller) :=
+  match i.thing with
+  | .abp b =>
+    match fpoPlan i.info b w with
+    | .panic s => .panic s
+    | .ok p => .ok (runPlan (clearAll names c) p)
+  | .prog _ => .panic "walk_with_stack_win_fpo: unreachable!()"
+
+/-- `SymbolFile::walk_frame` after the three table lookups: `fd`/`fpo` are the records found at
+    the address, `cfi` is what `walk_with_stack_cfi` would do to the walker (`none`: no CFI
+    record covers the address). framedata is preferred to fpo; an fpo record is not tried
+    when a framedata record exists and fails; STACK CFI runs iff STACK WIN returned `None`,
+    on the walker as STACK WIN left it. -/
+def winResult (names : List String) (fd fpo : Option SInfo) (w : Walker) (c : Caller) :
+    Outcome (Bool × Caller) :=
+  match fd, fpo with
+  | some i, _ => walkFramedata names i w c
+  | none, some i => walkFpo names i w c
+  | none, none => .ok (false, c)
+
+/-- `win_stack_result.or_else(|| … walk_with_stack_cfi …)` -/
+def orElseCfi (cfi : Option (Caller → Option Caller)) :
+    Outcome (Bool × Caller) → Outcome (Bool × Caller)
+  | .panic s => .panic s
+  | .ok (true, c') => .ok (true, c')
+  | .ok (false, c') =>
+    match cfi with
+    | none => .ok (false, c')
+    | some f =>
+      match f c' with
+      | some c'' => .ok (true, c'')
+      | none => .ok (false, c')
+
+def walkSelected (names : List String) (fd fpo : Option SInfo)
+    (cfi : Option (Caller → Option Caller)) (w : Walker) (c : Caller) : Outcome (Bool × Caller) :=
+  orElseCfi cfi (winResult names fd fpo w c)
+
+/-! ## line protocol
+
+  `win walk base:<hex> instr:<hex> gc:<0|1>:<hex> cfi:<0|1> regs:<name=hex,..|-> mem:<hexbase>:<hexbytes|->
+            (rec:<ty>:<addr>:<size>:<par>:<sav>:<loc>:<hp>:<hex(rest)>)*`
+  answer: `none` | `some <name>=<hex>,.. sets:<name>=<hex>,.. clears:<name>,..` | `PANIC`
+  (valid caller registers in alphabetical order).  The CFI record of a case is the fixed
+  `STACK CFI INIT 0 ffffffff .cfa: 4096 .ra: 8192` (covers module offsets `0 .. 2^32-2`).
+-/
+open Proto
+
+/-- 4-byte little-endian read from a stack image (`MinidumpMemory::get_memory_at_address::<u32>`) -/
+def readImage (base : Nat) (bytes : Array UInt8) (addr : Nat) : Option UInt32 :=
+  if addr < base then none
+  else
+    let off := addr - base
+    if off + 4 ≤ bytes.size then
+      some (UInt32.ofNat (bytes[off]!.toNat + bytes[off+1]!.toNat * 256 + bytes[off+2]!.toNat * 65536
+        + bytes[off+3]!.toNat * 16777216))
+    else none
+
+def parseRegs (s : String) : Option Vars :=
+  if s = "-" then some [] else
+  (pieces s ",").foldr (fun p acc =>
+    match acc, p.splitOn "=" with
+    | some l, [n, v] =>
+      match parseHexNat v with
+      | some x => if x ≤ U32MAX then some ((n, UInt32.ofNat x) :: l) else none
+      | none => none
+    | _, _ => none) (some [])
+
+def stripPrefix (pre s : String) : Option String :=
+  if s.startsWith pre then some (s.drop pre.length).toString else none
+
+def parseRec (s : String) : Option Rec :=
+  match s.splitOn ":" with
+  | [ty, addr, size, par, sav, loc, hp, rest] =>
+    match ty.toList, hp.toList, parseHexNat addr, parseHexNat size, parseHexNat par, parseHexNat sav,
+          parseHexNat loc, unhex rest with
+    | [tyc], [hpc], some a, some sz, some p, some sv, some lc, some bs =>
+      if sz ≤ U32MAX ∧ p ≤ U32MAX ∧ sv ≤ U32MAX ∧ lc ≤ U32MAX ∧ a ≤ U64MAX then
+        match String.fromUTF8? (ByteArray.mk bs.toArray) with
+        | some str =>
+          -- what the line grammar can express: `type` one hex digit, `has_program_string` one decimal
+          -- digit, the rest up to the end of line, leading blanks eaten by `space1`
+          if (hexDigitVal tyc).isNone ∨ !isDigit hpc ∨ str.toList.head? = some ' ' ∨
+             str.toList.head? = some '\t' ∨ str.toList.contains '\r' ∨ str.toList.contains '\n' then none else
+          some { ty := tyc, addr := a, size := sz, par := UInt32.ofNat p, sav := UInt32.ofNat sv,
+                 loc := UInt32.ofNat lc, hp := hpc, rest := str.toList }
+        | none => none
+      else none
+    | _, _, _, _, _, _, _, _ => none
+  | _ => none
+
+/-- the table of one kind (`win_stack_framedata_info` / `win_stack_fpo_info`): the parser's
+    `insert_win_stack_info` repair followed by `into_rangemap_safe` (C08's model); values are
+    indices into `recs`. -/
+def buildTable (recs : List (Nat × Nat × Nat)) : Outcome (List RangeMap.Entry) :=
+  match RangeMap.insertWinAll [] (recs.map fun (a, s, i) => RangeMap.Rec.mk a s i) with
+  | .panic s => .panic s
+  | .ok v => RangeMap.safeP (v.map fun (r, w) => (r, w.enc))
+
+def lookup (t : List RangeMap.Entry) (addr : Nat) : Option Nat :=
+  (RangeMap.get t addr).map fun v => (RangeMap.Rec.dec v).tag
+
+/-- the fixed CFI record of the protocol: `.cfa: 4096 .ra: 8192` ⇒ `set_cfa(4096)?; set_ra(8192)?` -/
+def cfiConst (c : Caller) : Option Caller := (c.setCore "esp" 4096).bind fun c => c.setCore "eip" 8192
+
+def showCaller (c : Caller) : String :=
+  let names := ["eax", "ebp", "ebx", "ecx", "edi", "edx", "eflags", "eip", "esi", "esp"]
+  let regs := names.filterMap fun n =>
+    if n ∈ c.valid then some (n ++ "=" ++ natToHex ((c.vals.get n).getD 0).toNat) else none
+  "some " ++ (if regs.isEmpty then "-" else joinWith "," regs) ++ " sets:" ++
+    (if c.log.isEmpty then "-" else joinWith "," (c.log.map fun (n, v) => n ++ "=" ++ natToHex v)) ++
+    " clears:" ++ (if c.clears.isEmpty then "-" else joinWith "," c.clears)
+
+def handleWalk (args : List String) : String :=
+  match args with
+  | b :: i :: g :: cf :: rg :: mm :: recs =>
+    match (stripPrefix "base:" b).bind parseHexNat, (stripPrefix "instr:" i).bind parseHexNat,
+          stripPrefix "gc:" g, stripPrefix "cfi:" cf, (stripPrefix "regs:" rg).bind parseRegs,
+          stripPrefix "mem:" mm with
+    | some base, some instr, some gs, some cfs, some regs, some ms =>
+      let gcP : Option (Bool × UInt32) := match gs.splitOn ":" with
+        | [h, p] => match parseHexNat p with
+          | some x => if x ≤ U32MAX ∧ (h = "0" ∨ h = "1") then some (h = "1", UInt32.ofNat x) else none
+          | none => none
+        | _ => none
+      let memP : Option (Nat × Array UInt8) := match ms.splitOn ":" with
+        | [mb, bytes] => match parseHexNat mb, unhex bytes with
+          | some x, some bs => some (x, bs.toArray)
+          | _, _ => none
+        | _ => none
+      let recsP : Option (List Rec) := recs.foldr (fun s acc =>
+        match acc, (stripPrefix "rec:" s).bind parseRec with
+        | some l, some r => some (r :: l)
+        | _, _ => none) (some [])
+      match gcP, memP, recsP with
+      | some (hasGC, gcParam), some (mbase, mbytes), some rs =>
+        if cfs ≠ "0" ∧ cfs ≠ "1" then "bad-op" else
+        if !(regs.map (·.1)).Nodup then "bad-op" else
+        let w : Walker := { hasGC := hasGC, gcParam := gcParam, reg := fun n => Vars.get regs n,
+                            mem := readImage mbase mbytes }
+        let c0 := Caller.init regs (fun n => (Vars.get regs n).isSome)
+        if instr < base then "none" else
+        let addr := instr - base
+        let typed : List (FrameType × Rec × Nat) := rs.zipIdx.map fun (r, idx) => (classifyRec r, r, idx)
+        let fdRecs := typed.filterMap fun (t, r, idx) =>
+          match t with | .frameData _ => some (r.addr, r.size, idx) | _ => none
+        let fpoRecs := typed.filterMap fun (t, r, idx) =>
+          match t with | .fpo _ => some (r.addr, r.size, idx) | _ => none
+        let pick (tbl : List RangeMap.Entry) : Option SInfo :=
+          (lookup tbl addr).bind fun idx =>
+            match typed[idx]? with
+            | some (.frameData si, _, _) => some si
+            | some (.fpo si, _, _) => some si
+            | _ => none
+        match buildTable fdRecs, buildTable fpoRecs with
+        | .ok t4, .ok t0 =>
+          match walkSelected clearNamesActual (pick t4) (pick t0)
+                  (if cfs = "1" ∧ addr < U32MAX then some cfiConst else none) w c0 with
+          | .panic _ => "PANIC"
+          | .ok (false, _) => "none"
+          | .ok (true, c) => showCaller c
+        | _, _ => "PANIC"
+      | _, _, _ => "bad-op"
+    | _, _, _, _, _, _ => "bad-op"
+  | _ => "bad-op"
+
+/-- line-protocol entry point of this model (engine: win) -/
+def handle (_engine : String) (args : List String) : String :=
+  match args with
+  | "walk" :: rest => handleWalk rest
+  | _ => "bad-op"
 
 end MdModel.Win
